@@ -26,8 +26,8 @@ import (
 
 	"github.com/filecoin-project/go-f3/certs"
 	"github.com/filecoin-project/go-f3/gpbft"
+	"github.com/filecoin-project/go-f3/internal/verifh/lib/bsig"
 	"github.com/filecoin-project/go-f3/internal/verifh/lib/vh"
-	"github.com/filecoin-project/go-f3/sim/signing"
 )
 
 type itree struct {
@@ -257,7 +257,7 @@ func (m *mnet) mdeliver(to *mnode, msg *gpbft.GMessage) {
 }
 
 func runMulti(out *vh.Out, rng *vh.Rng, runNo int) {
-	base := &net{rng: rng, out: out, sig: signing.NewFakeBackend(), votes: map[string]map[gpbft.ActorID][]byte{},
+	base := &net{rng: rng, out: out, sig: bsig.New(), votes: map[string]map[gpbft.ActorID][]byte{},
 		payloads: map[string]gpbft.Payload{}, byzSlots: map[string]bool{}, commitVal: map[uint64]*gpbft.ECChain{}}
 	base.u = &universe{tips: map[string]int{}, byID: map[int]*gpbft.TipSet{}}
 	m := &mnet{net: base, trees: map[uint64]*itree{}}
